@@ -735,6 +735,41 @@ theorem turn_stopSpec (cfg : Cfg) (hc : cfg.clean) (opts : Option Opts) (user : 
   simp only [e1, e2, h1, h2]
 
 
+/-! ### the blocking rail -/
+
+theorem blockedTailR_blocker (cfg : Cfg) (opts : Option Opts) (c : Cat) (n : String) :
+    (blockedTailR cfg opts c n).blocker = some (c, n) := by
+  unfold blockedTailR; split <;> rfl
+
+theorem outputPhaseR_blocker (cfg : Cfg) (opts : Option Opts) (bm : String) :
+    (outputPhaseR cfg opts bm).blocker = blockerOf .output (chain cfg.output bm) := by
+  unfold outputPhaseR
+  obtain ⟨tr, lg, h⟩ := runRails_split .output cfg.output 0 bm
+  rw [h]
+  cases chain cfg.output bm <;> simp [blockerOf, Out.prepend, blockedTailR_blocker]
+
+theorem processBotMessageR_blocker (cfg : Cfg) (opts : Option Opts) (bm : String) :
+    (processBotMessageR cfg opts false bm).blocker = if sel opts .output then blockerOf .output (chain cfg.output bm) else none := by
+  unfold processBotMessageR
+  cases hf : cfg.hasFlows .output <;> cases hs : sel opts .output <;> simp [outputPhaseR_blocker]
+  rw [hasFlows_output cfg hf]; rfl
+
+theorem turnCoreR_blocker_off (cfg : Cfg) (o : Opts) (hd : o.dialog = false) (user : String) (bot : Option String) (dlg : Dialog) :
+    (turnCoreR cfg (some o) user bot dlg).blocker = tableBlocker cfg o user bot := by
+  obtain ⟨i, d, r, ou⟩ := o
+  simp only at hd; subst hd
+  unfold turnCoreR tableBlocker
+  obtain ⟨tr, lg, h⟩ := inputPhase_split cfg (sel (some ⟨i, false, r, ou⟩) .input) user
+  rw [h]
+  simp only [sel, Opts.get]
+  generalize inOutcome cfg i user = oc
+  cases oc with
+  | passed um =>
+    simp only [prepend_blocker, afterInputR, sel, Opts.get]
+    cases ou <;> cases bot <;> simp [processBotMessageR_blocker, sel, Opts.get]
+  | blocked n => simp only [prepend_blocker, blockedTailR_blocker, blockerOf]
+  | faulted n => simp only [blockerOf]
+
 /-! ### a concrete configuration for the non-vacuity examples of Theorems/C16.lean -/
 
 def exBody (n : String) : List LogEv := [.step n [.act "check"], .actStart "check", .actFin "check"]
